@@ -381,16 +381,14 @@ static bool assemble_instruction(AsmState *state, const char *mnemonic,
         uint8_t operand_buf[8];
         /* For I32 label patches, we need the offset into fn_code where the operand will land */
         uint32_t patch_offset = state->fn_code_size;
+        uint32_t patches_before = state->patch_count;
         uint32_t nbytes = encode_operand(operand_buf, info->operands[i],
                                           rest, state, instr_start, result);
         if (result->error != ASM_OK) return false;
 
-        /* Fix up patch offset: if a patch was added, update its code_offset */
-        if (info->operands[i] == OPERAND_I32 && state->patch_count > 0) {
-            Patch *last = &state->patches[state->patch_count - 1];
-            if (last->code_offset != patch_offset) {
-                last->code_offset = patch_offset;
-            }
+        /* Fix up patch offset: only if this operand added a patch */
+        if (state->patch_count > patches_before) {
+            state->patches[state->patch_count - 1].code_offset = patch_offset;
         }
 
         fn_emit(state, operand_buf, nbytes);
